@@ -335,6 +335,37 @@ def run(ck: Check):
                 if k is not None:
                     ck.violation(dict(clause="verdict", detector=dname, regime="typed-stream", dtype=dt.__name__),
                                  dict(what="the verdicts on a 0/1 stream depend on the numeric type that carries the values", detector=dname, config=cc, dtype=dt.__name__, stream=ints[: k + 1], step=k + 1, flags_typed=list(o_[k][:3]), flags_python_int=list(ref[k][:3])))
+    # (d) a detector copied in mid-stream (copy.deepcopy / a pickle round trip - what save / load does): the copy, fed the rest
+    #     of the stream, reports what the original reports (both detectors, both modes; streams with a warning and a drift)
+    import copy as _copy
+    import pickle as _pickle
+
+    for dname, D, cc0 in (("HDDMA", A, dict(alpha_d=0.001, alpha_w=0.005, min_num_instances=30)), ("HDDMW", W, dict(alpha_d=0.001, alpha_w=0.005, lambda_=0.05, min_num_instances=30))):
+        for ts in (False, True):
+            cc = dict(cc0, two_sided_test=ts)
+            xs_ = [int(trng.random() < 0.2) for _ in range(80)] + [int(trng.random() < 0.75) for _ in range(120)]
+            for how in ("deepcopy", "pickle"):
+                for cut in (45, 95):
+                    try:
+                        d0 = D.make(cc)
+                        for v in xs_[:cut]:
+                            d0.update(value=v)
+                        d1 = _copy.deepcopy(d0) if how == "deepcopy" else _pickle.loads(_pickle.dumps(d0))
+                        o0, o1 = [], []
+                        for v in xs_[cut:]:
+                            d0.update(value=v)
+                            d1.update(value=v)
+                            o0.append(D.observe(d0)[:3])
+                            o1.append(D.observe(d1)[:3])
+                    except Exception as e:  # noqa: BLE001
+                        ck.violation(dict(clause="raises", detector=dname, scenario="copied-in-mid-stream", how=how), dict(detector=dname, config=cc, how=how, cut=cut, error=repr(e)))
+                        continue
+                    ck.case(dict(detector=dname, config=cc, kind="copied-in-mid-stream", how=how, cut=cut), nontrivial=any(o[0] or o[1] for o in o0), key=repr(("copy", dname, ts, how, cut)))
+                    ck.count("copied_in_mid_stream_runs")
+                    if o0 != o1:
+                        k = next(i for i, (a, b_) in enumerate(zip(o0, o1)) if a != b_)
+                        ck.violation(dict(clause="verdict", detector=dname, regime="copied-in-mid-stream", how=how),
+                                     dict(what=f"a {how} of the detector taken after {cut} updates does not report what the original reports on the rest of the stream", detector=dname, config=cc, how=how, cut=cut, step=cut + k + 1, copy=list(o1[k]), original=list(o0[k]), stream=xs_[: cut + k + 1]))
     # correspondence
     models = run_models("C04", cases, shard=60)
     from detectors import corr_compare
